@@ -46,6 +46,10 @@ class GetSubset(Contract):
             cl.append(("multiplicity_one", z3.Implies(out.present, out.mult == 1), ()))
         return cl
 
+    def replay(self, clause, model, cfg):
+        from rtc import c08 as r
+        return r.replay_select(model, cfg["feature"], cfg["m"], "subset")
+
 
 class RemoveFeature(Contract):
     prop = "C08"
@@ -68,6 +72,10 @@ class RemoveFeature(Contract):
         out, old = inp["me"].df, inp["old"]
         match = z3.Or(*[old[cfg["feature"]] == v.t for v in inp["vs"]])
         return [("schema_20_fields", _schema(out)), ("member_iff_not_matching", out.present == z3.Not(match), ()), ("rows_unchanged", _unchanged(out, old), ())]
+
+    def replay(self, clause, model, cfg):
+        from rtc import c08 as r
+        return r.replay_select(model, cfg["feature"], cfg["m"], "remove")
 
 
 class Intersection(Contract):
